@@ -100,6 +100,14 @@ def step (d : DSt) (args : List String) : DSt × String :=
       let r := if recv == 0 then none else some recv
       let d' := { d with s := addClaim d.s n (.deposit t a r (known != 0)) }; (d', showState d')
     | _, _, _, _, _ => (d, "bad-op")
+  | ["evidence", t, n, e, variant, signer] =>
+    match parseNat? t, parseNat? n, parseNat? e, parseNat? variant, parseNat? signer with
+    | some t, some n, some e, some variant, some signer =>
+      let (s', r) := evidence d.s (t, n, e, variant) (if signer == 0 then none else some signer)
+      let d' := { d with s := s' }
+      let js := sortNat s'.jailed
+      (d', showRes r ++ " jailed=" ++ showNatList js)
+    | _, _, _, _, _ => (d, "bad-op")
   | ["estimate", _, _, _] => (d, showState d)   -- recorded by the harness; applied via `endblock … ests`
   | ["endblock", f, h, now, toks, ests] =>
     match parseFault? f, parseNat? h, parseNat? now, parseNatList? toks, parseTriples? ests with
